@@ -125,7 +125,8 @@ def run(ctx):
                       '(index_insert can still reject it afterwards): a dropped update leaves blank parents behind in the committer\'s tree only',
                       where=[body.ln(s_)] + [body.ln(v) for v in late[:2]])
         return r
-    ctx.check('ORDER', 'batch_edit: direct paths of updaters are blanked only after every update was accepted or rolled back', blank_after_validation, floor=1)
+    ctx.check('ORDER', 'batch_edit: direct paths of updaters are blanked only after every update was accepted or rolled back', blank_after_validation, floor=1,
+              configs=['A', 'C', 'D'])      # configuration B has no by-reference proposals, hence no droppable Update and no batch_edit
     # path requirement computed by one function on both sides from the applied proposals
     for fq in ('Group::commit_internal', 'MessageProcessor::process_commit'):
         ctx.check('WIRE', 'path requirement from the applied proposals: ' + fq,
